@@ -4,6 +4,7 @@ Monitor (StructureLedger): dense snapshots (class, phases, per-(phase,CAS) flows
 taken after every step of copy / copy_like / link / unlink / proxy / mutate histories on real streams; sharing is decided
 behaviourally (mutate one side, observe the other).
 """
+import copy as _copy
 import pickle
 import numpy as np
 import thermosteam as tmo
@@ -14,17 +15,33 @@ PID = 'C13'
 RULE = ('(1) copy(): equal state, then 3-10 random mutations of either side leave the other snapshot bit-identical; (2) copy_like over the matrix source {Stream, MultiStream, MultiStream holding one phase} x '
         'target {Stream, MultiStream} x {same, other property package} x {target has / lacks the source phases, empty / stale target}; (3) proxy / flow_proxy / link_with(all flag subsets) / unlink sharing graph decided by '
         'mutating one side; (4) pickle round trips of Stream, MultiStream, Reaction, ParallelReaction, Chemical, Chemicals, Thermo incl. price and characterization factors. '
-        'non-trivial = source holds >=2 non-zero flows; distinct = hash of the case')
+        'non-trivial = source holds >=2 non-zero flows; distinct = hash of the case. '
+        'Second stream of cases (own generator, run after the first): (5) link histories over 3 streams, 4-10 ops from {link_with(flags), proxy, flow_proxy, unlink (either side), copy, mutate with the rich set '
+        'incl. copy_like / mix_from a donor and mol[:]=} against a model sharing graph, values checked after every op and all ordered pairs probed behaviourally; (6) copy(thermo=other package), copy.copy, copy of a phase view, '
+        'copy of an ID-carrying stream; (7) copy_flow(remove=False) all / IDs / exclude / phase forms onto single and multi targets, copy_thermal_condition, copy_phase; (8) link_with across kinds / phase sets / packages '
+        '(refusal leaves both untouched, otherwise the linked parts are equal and shared); (9) pickles of empty / one-phase-multi / S,L labels / units+total_flow / proxy / phase view / linked pair / indexers / '
+        'SeriesReaction / ReactionSystem / ReactionItem / edited X / user-defined and modified chemicals / aliases and groups / every cucumber class; (10) copy_like onto itself, between linked streams, onto and from phase views')
 MIN_NONTRIVIAL = {'quick': 500, 'thorough': 20000}
 ASSUMPTIONS = ['class-changing conversions on one side of a link are excluded from sharing sequences (they replace the shared indexer by design; C12)',
-               'copy_like target lists every chemical of the source']
+               'copy_like target lists every chemical of the source',
+               'in link histories the donors of copy_like / mix_from and all three streams have the same kind and phase set (a phase expansion replaces the shared rows by design; C12)',
+               'link_with on a stream that is a proxy of (or has a proxy among) the other streams: the sharing of those third parties is not judged (no documented semantics); the linked pair itself is']
 
 PKGS = [('Water', 'Ethanol', 'Methanol', 'Octane', 'CO2'), ('CO2', 'Octane', 'Water', 'Methanol', 'Ethanol'), ('Ethanol', 'Water')]
 PH = 'slgSL'
 
 
 def required(tier):
-    return ['copy-independent', 'copy_like', 'copy_like:multi-source', 'copy_like:one-phase-multi', 'copy_like:foreign', 'link', 'unlink', 'proxy', 'flow_proxy', 'pickle']
+    return ['copy-independent', 'copy_like', 'copy_like:multi-source', 'copy_like:one-phase-multi', 'copy_like:foreign', 'link', 'unlink', 'proxy', 'flow_proxy', 'pickle',
+            'linkseq', 'linkseq:op/link', 'linkseq:op/unlink', 'linkseq:op/proxy', 'linkseq:op/flow_proxy', 'linkseq:op/copy', 'linkseq:op/mut', 'linkseq:unlink-original', 'linkseq:relink',
+            'linkseq:mut/copy_like3', 'linkseq:mut/mix3', 'linkseq:mut/molset', 'linkseq:mut/scale', 'linkseq:mut/imass', 'linkseq:shared-mutation', 'linkseq:multi',
+            'copy2', 'copy2:thermo', 'copy2:copy.copy', 'copy2:view', 'copy2:ID',
+            'copy_flow', 'copy_flow:single-target', 'copy_flow:multi-target', 'copy_flow:multi-source', 'copy_flow:foreign', 'copy_flow:exclude', 'copy_thermal_condition', 'copy_phase',
+            'linkkinds:cross-kind', 'linkkinds:phase-sets', 'linkkinds:packages',
+            'pickle2', 'pickle2:empty', 'pickle2:M1', 'pickle2:labels', 'pickle2:units', 'pickle2:proxy', 'pickle2:view', 'pickle2:linked-pair', 'pickle2:indexer', 'pickle2:isplit',
+            'pickle2:SeriesReaction', 'pickle2:ReactionSystem', 'pickle2:ReactionItem', 'pickle2:X-edited', 'pickle2:Chemical-blank', 'pickle2:Chemical-user', 'pickle2:Chemical-Hf',
+            'pickle2:Chemicals-alias', 'pickle2:Chemicals-group', 'pickle2:Thermo-custom', 'pickle2:IdealThermo', 'pickle2:handles',
+            'copy_like2', 'copy_like2:self', 'copy_like2:linked', 'copy_like2:view-target', 'copy_like2:view-source', 'copy_like2:own-view']
 
 
 def snap(s):
@@ -66,7 +83,7 @@ def gen_mutations(rng, n):
     return out
 
 
-def mutate(s, mu):
+def mutate(s, mu, donor=None):
     ids = s.chemicals.IDs
     m = mu['m']
     multi = isinstance(s, tmo.MultiStream)
@@ -86,6 +103,13 @@ def mutate(s, mu):
         if not multi: s.phase = mu['v']     # class-preserving only
     elif m == 'mixself':
         s.mix_from([s, s], energy_balance=False)
+    elif m == 'copy_like3': s.copy_like(donor)
+    elif m == 'mix3': s.mix_from([s, donor], energy_balance=False)
+    elif m == 'molset':
+        vals = [float(v) for v in mu['vals']][:len(ids)]
+        vals += [0.0] * (len(ids) - len(vals))
+        if multi: s.imol[s.phases[mu['ph'] % len(s.phases)]] = np.array(vals)
+        else: s.mol[:] = np.array(vals)
 
 
 def run_copy(case, rec):
@@ -323,7 +347,876 @@ def gen_case(rng):
     return c
 
 
-RUNNERS = {'copy': run_copy, 'copy_like': run_copy_like, 'link': run_link, 'pickle': run_pickle}
+# ======================================================================================================================
+# second stream of cases (own generator gen_case2; the first stream above is left byte-identical)
+
+PARTS = ('flow', 'TP', 'phase')
+
+
+def pub_ledger(s):
+    """non-zero flows read through the public indexer API: {(phase, CAS): value}."""
+    ch = s.chemicals; out = {}
+    if isinstance(s, tmo.MultiStream):
+        for ph in s.phases:
+            for ID, cas in zip(ch.IDs, ch.CASs):
+                v = float(s.imol[ph, ID])
+                if v: out[(ph, cas)] = v
+    else:
+        ph = s.phase
+        for ID, cas in zip(ch.IDs, ch.CASs):
+            v = float(s.imol[ID])
+            if v: out[(ph, cas)] = v
+    return out
+
+
+def mass_view_ok(x):
+    mv = x.mass; mv = mv.to_array() if hasattr(mv, 'to_array') else np.asarray(mv)
+    return bool(np.allclose(np.asarray(mv, float), x.mol.to_array() * x.chemicals.MW, rtol=1e-12, atol=0))
+
+
+def part_of(sn, p, multi):
+    if p == 'flow': return sn['flows'] if multi else bycas(sn['flows'])
+    if p == 'TP': return (sn['T'], sn['P'])
+    return sn['phases']
+
+
+class ShareModel:
+    """which of (flow, TP, phase) each pair of the tracked streams shares: container ids per stream and part.
+    A part of a stream is 'tainted' (relation to everybody not judged) when another member of its proxy group (streams made by proxy() share
+    one indexer object) was re-linked: the library moves the whole group's flow / phase but only the caller's T,P, and documents neither."""
+
+    def __init__(self, n, multi):
+        self.multi = multi; self.k = 0
+        self.cid = [None] * n; self.taint = [None] * n; self.pg = [None] * n
+        for i in range(n): self.fresh(i)
+
+    def new(self):
+        self.k += 1; return self.k
+
+    def fresh(self, i):
+        self.cid[i] = {p: self.new() for p in PARTS}
+        self.taint[i] = {p: False for p in PARTS}
+        self.pg[i] = self.new()
+
+    def shared(self, i, j, p):
+        if p == 'phase' and self.multi: return None
+        if self.taint[i][p] or self.taint[j][p]: return None
+        return self.cid[i][p] == self.cid[j][p]
+
+    def links(self, i):
+        return any(self.cid[i][p] == self.cid[j][p] for j in range(len(self.cid)) if j != i for p in PARTS if not (p == 'phase' and self.multi))
+
+    def apply(self, op):
+        name = op['op']; x = op['x']; y = op.get('y')
+        if name in ('copy', 'unlink'): self.fresh(x)
+        elif name == 'proxy':
+            self.cid[x] = dict(self.cid[y]); self.taint[x] = dict(self.taint[y]); self.pg[x] = self.pg[y]
+        elif name == 'flow_proxy':
+            self.fresh(x); self.cid[x]['flow'] = self.cid[y]['flow']; self.taint[x]['flow'] = self.taint[y]['flow']
+        elif name == 'link':
+            f = op['flags']; sel = {'flow': f[0], 'phase': f[1] and not self.multi, 'TP': f[2]}
+            group = [q for q in range(len(self.cid)) if q != x and self.pg[q] == self.pg[x]]
+            ambiguous = False
+            for p in PARTS:
+                if not sel[p]: continue
+                same = self.cid[x][p] == self.cid[y][p] and not self.taint[x][p] and not self.taint[y][p]
+                if not same and p != 'TP':
+                    for q in group:
+                        self.taint[q][p] = True; ambiguous = True
+                self.cid[x][p] = self.cid[y][p]; self.taint[x][p] = self.taint[y][p]
+            return ambiguous
+        return False
+
+
+def probe_all(ss, model, rec, where, kind):
+    """every stream in turn writes a flow, T, P and (single-phase) the phase; every other stream must see it exactly when the model says the part is shared."""
+    multi = model.multi; n = len(ss)
+    ids = ss[0].chemicals.IDs
+    for w in range(n):
+        src = ss[w]
+        key = (src.phases[0], ids[0]) if multi else ids[0]
+        for p in PARTS:
+            if p == 'phase' and multi: continue
+            if p == 'flow':
+                cur = [float(s.imol[key]) for s in ss]; v = max(cur) + 100.5 + w
+                src.imol[key] = v
+                got = [float(s.imol[key]) for s in ss]
+            elif p == 'TP':
+                cur = [(s.T, s.P) for s in ss]; v = (max(c[0] for c in cur) + 1.25 + w, max(c[1] for c in cur) + 500. + w)
+                src.T = v[0]; src.P = v[1]
+                got = [(s.T, s.P) for s in ss]
+            else:
+                cur = [s.phase for s in ss]; v = [q for q in 'lgsSL' if q not in cur][0]
+                src.phase = v
+                got = [s.phase for s in ss]
+            for k in range(n):
+                if k == w: continue
+                rel = model.shared(w, k, p)
+                if rel is None: continue
+                if rel: rec.check(got[k] == v, 'linkseq', f'probe/{p}-write-not-visible/{where}/{kind}', f'{p} written on one stream is not seen by a stream that shares its {p} ({where}): wrote {v}, other reads {got[k]}')
+                else: rec.check(got[k] == cur[k], 'linkseq', f'probe/{p}-write-leaked/{where}/{kind}', f'{p} written on one stream changed a stream that does not share its {p} ({where}): {cur[k]} -> {got[k]}')
+
+
+def run_linkseq(case, rec):
+    multi = case['kind'] == 'M'; kind = 'multi' if multi else 'single'
+    ss = [build_stream(d, PKGS) for d in case['streams']]
+    donor = build_stream(case['donor'], PKGS)
+    model = ShareModel(len(ss), multi)
+    n = len(ss)
+    linker = [False] * n      # the stream made the link itself (link_with caller, proxy, flow proxy) since it was last independent
+    if multi: rec.hit('linkseq:multi')
+    if sum(len(snap(s)['flows']) for s in ss) >= 2: rec.mark_nontrivial(case_hash(case))
+    for op in case['ops']:
+        name = op['op']; x = op['x']; y = op.get('y')
+        before = [snap(s) for s in ss]
+        rel_before = {(k, p): model.shared(x, k, p) for k in range(n) for p in PARTS}
+        linked_before = model.links(x)
+        what = name if name != 'mut' else 'mut/' + op['mu']['m']
+        try:
+            if name == 'link': f = op['flags']; ss[x].link_with(ss[y], flow=f[0], phase=f[1], TP=f[2])
+            elif name == 'proxy': ss[x] = ss[y].proxy()
+            elif name == 'flow_proxy': ss[x] = ss[y].flow_proxy()
+            elif name == 'copy': ss[x] = ss[y].copy()
+            elif name == 'unlink': ss[x].unlink()
+            else: mutate(ss[x], op['mu'], donor)
+        except Exception as e:
+            rec.exception('linkseq', e, what=f'{what} in a link history ({kind}) raised {type(e).__name__}: {str(e)[:150]}'); return
+        rec.hit('linkseq:op/' + name)
+        was_linker = linker[x]
+        linker[x] = name in ('link', 'proxy', 'flow_proxy') or (name == 'mut' and linker[x])
+        ambiguous = model.apply(op)
+        if ambiguous: rec.refuse('link_with on a member of a proxy group: sharing of the other members not judged')
+        try:
+            after = [snap(s) for s in ss]
+        except Exception as e:
+            rec.exception('linkseq', e, what=f'reading the streams after {what} ({kind}) raised {type(e).__name__}: {str(e)[:150]}'); return
+        if name == 'link':
+            if linked_before: rec.hit('linkseq:relink')
+            sel = {'flow': f[0], 'phase': f[1] and not multi, 'TP': f[2]}
+            for p in PARTS:
+                if p == 'phase' and multi: continue
+                if sel[p]: rec.check(part_of(after[x], p, multi) == part_of(before[y], p, multi), 'linkseq', f'link/selected-{p}-not-taken/{kind}', f'link_with(selected {p}): the linking stream does not hold the {p} of the other: {part_of(after[x], p, multi)} vs {part_of(before[y], p, multi)}')
+                else: rec.check(part_of(after[x], p, multi) == part_of(before[x], p, multi), 'linkseq', f'link/unselected-{p}-changed/{kind}', f'link_with(not selecting {p}) changed the {p} of the linking stream: {part_of(before[x], p, multi)} -> {part_of(after[x], p, multi)}')
+            rec.check(same_snap(after[y], before[y]), 'linkseq', f'link/other-changed/{kind}', f'link_with changed the stream linked to: {before[y]} -> {after[y]}')
+            for k in range(n):
+                if k in (x, y): continue
+                for p in PARTS:
+                    if (p == 'phase' and multi) or model.taint[k][p]: continue
+                    rec.check(part_of(after[k], p, multi) == part_of(before[k], p, multi), 'linkseq', f'link/third-party-{p}-changed/{kind}', f'link_with between two streams changed the {p} of a third: {part_of(before[k], p, multi)} -> {part_of(after[k], p, multi)}')
+        elif name == 'unlink':
+            if linked_before:
+                rec.hit('linkseq:unlink-linked')
+                if not was_linker: rec.hit('linkseq:unlink-original')     # other streams were linked to / made from this one
+            for k in range(n):
+                rec.check(same_snap(after[k], before[k]), 'linkseq', f'unlink/values-{"own" if k == x else "other"}/{kind}', f'unlink changed the values of {"the unlinked stream" if k == x else "another stream"}: {before[k]} -> {after[k]}')
+        elif name in ('proxy', 'flow_proxy', 'copy'):
+            rec.check(same_snap(after[x], before[y]), 'linkseq', f'{name}/state/{kind}', f'{name}() differs from its original: {before[y]} vs {after[x]}')
+            for k in range(n):
+                if k != x: rec.check(same_snap(after[k], before[k]), 'linkseq', f'{name}/other-changed/{kind}', f'{name}() changed an existing stream: {before[k]} -> {after[k]}')
+            if name == 'proxy' and multi:
+                # the flow data of a multi-phase proxy is also readable per phase
+                try:
+                    ph = ss[y].phases[0]
+                    rec.check(bycas(phase_ledger(ss[x][ph])) == bycas(phase_ledger(ss[y][ph])), 'linkseq', 'proxy/phase-view/multi', 'phase view of a proxy shows other flows than the phase view of the original')
+                except Exception as e:
+                    rec.exception('linkseq', e, what=f'reading a phase of the proxy of a multi-phase stream raised {type(e).__name__}: {str(e)[:150]}')
+        else:
+            m = op['mu']['m']; rec.hit('linkseq:mut/' + m)
+            for k in range(n):
+                if k == x: continue
+                for p in PARTS:
+                    rel = rel_before[(k, p)]
+                    if rel is None: continue
+                    if rel:
+                        rec.hit('linkseq:shared-mutation')
+                        rec.check(part_of(after[k], p, multi) == part_of(after[x], p, multi), 'linkseq', f'mut/{m}/shared-{p}-differs/{kind}', f'after {m} on one stream a stream sharing its {p} holds another {p}: {part_of(after[x], p, multi)} vs {part_of(after[k], p, multi)}')
+                    else:
+                        rec.check(part_of(after[k], p, multi) == part_of(before[k], p, multi), 'linkseq', f'mut/{m}/unshared-{p}-changed/{kind}', f'{m} on one stream changed the {p} of a stream that does not share it: {part_of(before[k], p, multi)} -> {part_of(after[k], p, multi)}')
+        for s in ss:
+            rec.check(mass_view_ok(s), 'linkseq', f'mass-view/{kind}', f'after {what} in a link history the mass view of a stream is not its own mol*MW: {np.asarray(s.mass.to_array() if hasattr(s.mass, "to_array") else s.mass).tolist()} vs {(s.mol.to_array() * s.chemicals.MW).tolist()}')
+            e = stream_invariant(s); rec.check(e is None, 'invariant', 'linkseq', f'sparse invariant: {e}')
+        if name != 'mut':
+            try:
+                probe_all(ss, model, rec, 'after-' + name, kind)
+            except Exception as e:
+                rec.exception('linkseq', e, what=f'probing after {what} ({kind}) raised {type(e).__name__}: {str(e)[:150]}'); return
+    # volumetric view of every stream is its own (an independent copy computes the same)
+    for s in ss:
+        try:
+            ref = s.copy().vol.to_array()
+        except Exception:
+            continue
+        try:
+            got = s.vol.to_array()
+        except Exception as e:
+            rec.exception('linkseq', e, what=f'vol of a stream at the end of a link history raised {type(e).__name__}: {str(e)[:150]}'); return
+        rec.check(bool(np.allclose(got, ref, rtol=1e-9, atol=0)), 'linkseq', f'vol-view/{kind}', f'volumetric view of a stream at the end of a link history differs from that of its copy: {got.tolist()} vs {ref.tolist()}')
+    rec.hit('linkseq')
+
+
+# ---------------------------------------------------------------------------------------------------------------------
+def indep_after(a, b, rec, clause, tag):
+    """mutate b, then a: the other must not move."""
+    sa = snap(a)
+    b.scale(2.0); b.T = b.T + 1.0; b.P = b.P + 10.
+    rec.check(same_snap(snap(a), sa), clause, f'not-independent/{tag}', f'mutating the result changed the source: {sa} -> {snap(a)}')
+    sb = snap(b)
+    a.scale(3.0); a.T = a.T + 2.0
+    ids = a.chemicals.IDs
+    if isinstance(a, tmo.MultiStream): a.imol[a.phases[0], ids[0]] = 77.125
+    else: a.imol[ids[0]] = 77.125
+    rec.check(same_snap(snap(b), sb), clause, f'not-independent-reverse/{tag}', f'mutating the source changed the result: {sb} -> {snap(b)}')
+
+
+def run_copy2(case, rec):
+    form = case['form']
+    rec.hit('copy2:' + form)
+    a = build_stream(case['a'], PKGS)
+    multi = isinstance(a, tmo.MultiStream)
+    tag = form + '/' + ('multi' if multi else 'single')
+    if form == 'thermo':
+        th = thermo_of(PKGS[case['pkg']])
+        tag += '/' + ('same-package' if th is a.thermo else 'other-package')
+        sa = snap(a)
+        try:
+            b = a.copy(thermo=th)
+        except tmo.exceptions.UndefinedChemicalAlias:
+            rec.refuse('copy(thermo=): the package lacks a chemical the stream holds'); return
+        except Exception as e:
+            rec.exception('copy2', e, what=f'copy(thermo=other) raised {type(e).__name__}: {str(e)[:150]}'); return
+        try:
+            sb = snap(b); pb = pub_ledger(b)
+        except Exception as e:
+            rec.exception('copy2', e, what=f'reading copy(thermo=other) raised {type(e).__name__}: {str(e)[:150]}'); return
+        rec.check(same_snap(sa, sb) and pb == sa['flows'], 'copy2', f'state/{tag}', f'copy(thermo=) differs from the original: {sa} vs {sb} (read through imol: {pb})')
+        rec.check(b.thermo is th and b.chemicals is th.chemicals, 'copy2', f'package/{tag}', 'copy(thermo=) does not carry the requested package')
+        rec.check(same_snap(snap(a), sa), 'copy2', f'source-changed/{tag}', 'copy(thermo=) changed the original')
+        rec.check(mass_view_ok(b), 'copy2', f'mass-view/{tag}', 'mass view of copy(thermo=) is not mol*MW of the new package')
+        indep_after(a, b, rec, 'copy2', tag)
+        if len(sa['flows']) >= 2: rec.mark_nontrivial(case_hash(case))
+    elif form == 'copy.copy':
+        sa = snap(a)
+        try:
+            b = _copy.copy(a)
+        except Exception as e:
+            rec.exception('copy2', e, what=f'copy.copy(stream) raised {type(e).__name__}: {str(e)[:150]}'); return
+        rec.check(b is not a and same_snap(sa, snap(b)), 'copy2', f'state/{tag}', f'copy.copy differs from the original: {sa} vs {snap(b)}')
+        indep_after(a, b, rec, 'copy2', tag)
+        if len(sa['flows']) >= 2: rec.mark_nontrivial(case_hash(case))
+    elif form == 'view':
+        ph = a.phases[case['ph'] % len(a.phases)]
+        v = a[ph]
+        sv = snap(v); sa = snap(a)
+        try:
+            b = v.copy()
+        except Exception as e:
+            rec.exception('copy2', e, what=f'copy() of a phase view raised {type(e).__name__}: {str(e)[:150]}'); return
+        rec.check(same_snap(sv, snap(b)) and type(b) is tmo.Stream, 'copy2', f'state/{tag}', f'copy of a phase view differs from the view: {sv} vs {snap(b)}')
+        # independent of the view and of the parent
+        b.scale(2.0); b.T = b.T + 1.0; b.imol[b.chemicals.IDs[0]] = 55.5
+        rec.check(same_snap(snap(a), sa), 'copy2', f'not-independent/{tag}', f'mutating the copy of a phase view changed the multi-phase parent: {sa} -> {snap(a)}')
+        sb = snap(b)
+        a.imol[ph, a.chemicals.IDs[1]] = 31.25; a.T = a.T + 3.0
+        rec.check(same_snap(snap(b), sb), 'copy2', f'not-independent-reverse/{tag}', 'mutating the parent changed the copy of its phase view')
+        if len(sv['flows']) >= 2: rec.mark_nontrivial(case_hash(case))
+    else:   # ID
+        th = thermo_of(PKGS[0]); d = case['a']
+        try:
+            if multi: s = tmo.MultiStream('c13_src', phases=tuple(d['phases']), T=d['T'], P=d['P'], thermo=th, price=1.5)
+            else: s = tmo.Stream('c13_src', phase=d['phase'], T=d['T'], P=d['P'], thermo=th, price=1.5)
+            s.copy_like(a)
+            sa = snap(s)
+            b = s.copy('c13_copy') if case['give_id'] else s.copy()
+        except Exception as e:
+            rec.exception('copy2', e, what=f'copy of a stream with an ID raised {type(e).__name__}: {str(e)[:150]}'); return
+        rec.check(b is not s and same_snap(sa, snap(b)), 'copy2', f'state/{tag}', f'copy of an ID-carrying stream differs: {sa} vs {snap(b)}')
+        rec.check(same_snap(snap(s), sa) and s.ID == 'c13_src', 'copy2', f'source-changed/{tag}', 'copy changed the ID-carrying original')
+        indep_after(s, b, rec, 'copy2', tag)
+        if len(sa['flows']) >= 2: rec.mark_nontrivial(case_hash(case))
+    rec.hit('copy2')
+
+
+# ---------------------------------------------------------------------------------------------------------------------
+def totals(s):
+    return bycas(phase_ledger(s))
+
+
+def run_copyflow(case, rec):
+    what = case['what']
+    src = build_stream(case['src'], PKGS); dst = build_stream(case['dst'], PKGS)
+    sm = isinstance(src, tmo.MultiStream); dm = isinstance(dst, tmo.MultiStream)
+    foreign = src.chemicals is not dst.chemicals
+    tag = ('multi' if sm else 'single') + '-source/' + ('multi' if dm else 'single') + '-target/' + ('foreign' if foreign else 'same') + '-package'
+    if sm and dm and tuple(src.phases) != tuple(dst.phases): tag += '/different-phases'
+    ss = snap(src)
+    if what == 'copy_thermal_condition':
+        rec.hit('copy_thermal_condition:' + tag)
+        try:
+            dst.copy_thermal_condition(src)
+        except Exception as e:
+            rec.exception('copy_thermal_condition', e, what=f'copy_thermal_condition({tag}) raised {type(e).__name__}: {str(e)[:150]}'); return
+        rec.check(dst.T == src.T and dst.P == src.P, 'copy_thermal_condition', f'TP/{tag}', f'after copy_thermal_condition target T,P = {dst.T},{dst.P}, source {src.T},{src.P}')
+        rec.check(same_snap(snap(src), ss), 'copy_thermal_condition', f'source-changed/{tag}', 'copy_thermal_condition changed its source')
+        dst.T = dst.T + 1.5; dst.P = dst.P + 25.
+        rec.check(same_snap(snap(src), ss), 'copy_thermal_condition', f'not-independent/{tag}', 'T,P written on the target after copy_thermal_condition changed the source')
+        st = (dst.T, dst.P); src.T = src.T + 4.0; src.P = src.P + 7.
+        rec.check((dst.T, dst.P) == st, 'copy_thermal_condition', f'not-independent-reverse/{tag}', 'T,P written on the source after copy_thermal_condition changed the target')
+        if len(ss['flows']) >= 2: rec.mark_nontrivial(case_hash(case))
+        return
+    if what == 'copy_phase':
+        rec.hit('copy_phase:' + ('multi' if sm else 'single') + '-source')
+        try:
+            dst.copy_phase(src)
+        except ValueError as e:
+            if 'multiple phases' in str(e): rec.refuse('copy_phase from a multi-phase stream refused'); return
+            rec.exception('copy_phase', e, what=f'copy_phase({tag}) raised ValueError: {str(e)[:150]}'); return
+        except Exception as e:
+            rec.exception('copy_phase', e, what=f'copy_phase({tag}) raised {type(e).__name__}: {str(e)[:150]}'); return
+        rec.check(dst.phase == src.phase, 'copy_phase', f'phase/{tag}', f'after copy_phase the target is in phase {dst.phase}, the source in {src.phase}')
+        rec.check(same_snap(snap(src), ss), 'copy_phase', f'source-changed/{tag}', 'copy_phase changed its source')
+        dst.phase = 'g' if dst.phase != 'g' else 'l'
+        rec.check(same_snap(snap(src), ss), 'copy_phase', f'not-independent/{tag}', 'changing the phase of the target after copy_phase changed the source')
+        return
+    # copy_flow(remove=False)
+    form = case['form']; IDs = form.get('IDs'); exclude = form.get('exclude', False); phase = form.get('phase')
+    ftag = ('exclude-' if exclude else '') + ('all' if IDs is None else ('str' if isinstance(IDs, str) else 'seq')) + ('/phase' if phase else '')
+    kw = {}
+    if exclude: kw['exclude'] = True
+    ids_arg = IDs if (IDs is None or isinstance(IDs, str)) else tuple(IDs)
+    rec.hit('copy_flow:' + ('multi' if dm else 'single') + '-target')
+    if sm: rec.hit('copy_flow:multi-source')
+    if foreign: rec.hit('copy_flow:foreign')
+    if exclude: rec.hit('copy_flow:exclude')
+    src_ids = src.chemicals.IDs; src_cas = src.chemicals.CASs
+    listed = set() if IDs is None else ({IDs} if isinstance(IDs, str) else set(IDs))
+    try:
+        if dm:
+            if phase is not None: kw['phase'] = phase
+            if ids_arg is not None: kw['IDs'] = ids_arg
+            dst.copy_flow(src, **kw)
+        else:
+            if ids_arg is not None: dst.copy_flow(src, ids_arg, **kw)
+            else: dst.copy_flow(src, **kw)
+    except tmo.exceptions.UndefinedPhase:
+        rec.refuse('copy_flow: the target lacks the phase of the source (UndefinedPhase)'); return
+    except tmo.exceptions.UndefinedChemicalAlias:
+        rec.refuse('copy_flow: a listed chemical is not in a package (UndefinedChemical)'); return
+    except ValueError as e:
+        if 'same chemicals' in str(e): rec.refuse('copy_flow onto a multi-phase stream with other chemicals refused'); return
+        if 'shape mismatch' in str(e) and tag.endswith('/different-phases'): rec.refuse('copy_flow between multi-phase streams with different phase sets: shape mismatch'); return
+        rec.exception('copy_flow', e, what=f'copy_flow({ftag}; {tag}) raised ValueError: {str(e)[:150]}'); return
+    except IndexError as e:
+        if tag.endswith('/different-phases'):     # same row pairing as the wrong-flows form of this key
+            rec.check(False, 'copy_flow', f'flows/{tag}', f'copy_flow({ftag}) between multi-phase streams with different phase sets raised IndexError: {str(e)[:120]}'); return
+        rec.exception('copy_flow', e, what=f'copy_flow({ftag}; {tag}) raised IndexError: {str(e)[:150]}'); return
+    except Exception as e:
+        rec.exception('copy_flow', e, what=f'copy_flow({ftag}; {tag}) raised {type(e).__name__}: {str(e)[:150]}'); return
+    rec.check(same_snap(snap(src), ss), 'copy_flow', f'source-changed/{ftag}/{tag}', f'copy_flow(remove=False) changed its source: {ss} -> {snap(src)}')
+    if IDs is None and exclude:
+        pass        # nothing selected
+    elif not dm:
+        # per chemical totals of the selected chemicals agree
+        sel = [c for i, c in zip(src_ids, src_cas) if (i in listed) != exclude] if IDs is not None else list(src_cas)
+        st = bycas(ss['flows']); dt = totals(dst)
+        bad = [(c, st.get(c, 0.0), dt.get(c, 0.0)) for c in sel if abs(st.get(c, 0.0) - dt.get(c, 0.0)) > 1e-12 * max(abs(st.get(c, 0.0)), abs(dt.get(c, 0.0)))]
+        rec.check(not bad, 'copy_flow', f'flows/{ftag}/{tag}', f'after copy_flow the selected flows differ (CAS, source, target): {bad}')
+    else:
+        dl = phase_ledger(dst); sl = ss['flows']
+        dphs = tuple(dst.phases)
+        sphs = tuple(src.phases) if sm else (src.phase,)
+        if not sm and phase is not None and phase != src.phase and not exclude: sphs = ()      # the phase filter selects nothing of the source
+        psel = set(dphs) if phase is None else {phase}
+        bad = []
+        for ph in sphs:
+            if ph not in dphs: continue
+            for i, c in zip(src_ids, src_cas):
+                if sm: chosen = ((ph in psel) and (IDs is None or i in listed)) != exclude
+                elif exclude: chosen = not ((ph in psel) and i in listed)
+                else: chosen = IDs is None or i in listed
+                if chosen and sl.get((ph, c), 0.0) != dl.get((ph, c), 0.0): bad.append((ph, c, sl.get((ph, c), 0.0), dl.get((ph, c), 0.0)))
+        # between different phase sets every call form goes through the same row pairing: one key
+        rec.check(not bad, 'copy_flow', f'flows/{tag}' if tag.endswith('/different-phases') else f'flows/{ftag}/{tag}', f'after copy_flow({ftag}) the selected flows differ (phase, CAS, source, target): {bad}')
+    e = stream_invariant(dst); rec.check(e is None, 'invariant', 'copy_flow', f'sparse invariant: {e}')
+    try:
+        indep_after(src, dst, rec, 'copy_flow', ftag + '/' + tag)
+    except Exception as e:
+        rec.exception('copy_flow', e, what=f'mutating after copy_flow({ftag}; {tag}) raised {type(e).__name__}: {str(e)[:150]}'); return
+    rec.hit('copy_flow')
+    if len(ss['flows']) >= 2: rec.mark_nontrivial(case_hash(case))
+
+
+# ---------------------------------------------------------------------------------------------------------------------
+def run_linkkinds(case, rec):
+    a = build_stream(case['a'], PKGS); b = build_stream(case['b'], PKGS)
+    am = isinstance(a, tmo.MultiStream); bm = isinstance(b, tmo.MultiStream)
+    f = case['flags']
+    cross = am != bm
+    foreign = a.chemicals is not b.chemicals
+    diffph = am and bm and tuple(a.phases) != tuple(b.phases)
+    tag = ('M' if bm else 'S') + '-with-' + ('M' if am else 'S') + ('/other-package' if foreign else '/same-package') + ('/different-phases' if diffph else '') + ('/flow-linked' if f[0] else '/flow-not-linked')
+    if cross: rec.hit('linkkinds:cross-kind')
+    elif diffph: rec.hit('linkkinds:phase-sets')
+    if foreign and not cross: rec.hit('linkkinds:packages')
+    sa, sb = snap(a), snap(b)
+    try:
+        b.link_with(a, flow=f[0], phase=f[1], TP=f[2])
+    except RuntimeError as e:
+        if 'cannot link' not in str(e):
+            rec.exception('link', e, what=f'link_with({tag}) raised RuntimeError: {str(e)[:150]}'); return
+        rec.refuse('link_with refused: ' + ('streams of different kinds' if cross else 'other reason'))
+        # a refusal leaves both untouched and nothing shared
+        try:
+            rec.check(same_snap(snap(a), sa) and same_snap(snap(b), sb), 'link', f'refused-but-changed/{tag}', f'a refused link_with changed a stream: {sa}, {sb} -> {snap(a)}, {snap(b)}')
+            ida = a.chemicals.IDs
+            if am: a.imol[a.phases[0], ida[0]] = 4321.5
+            else: a.imol[ida[0]] = 4321.5
+            a.T = a.T + 2.5; a.P = a.P + 50.
+            rec.check(same_snap(snap(b), sb), 'link', f'refused-but-shared/{tag}', f'after a refused link_with a write on one stream changed the other: {sb} -> {snap(b)}')
+            sa2 = snap(a)
+            idb = b.chemicals.IDs
+            if bm: b.imol[b.phases[0], idb[0]] = 1234.5
+            else: b.imol[idb[0]] = 1234.5
+            b.T = b.T + 1.5
+            rec.check(same_snap(snap(a), sa2), 'link', f'refused-but-shared/{tag}', 'after a refused link_with a write on the refused stream changed the other')
+        except Exception as e2:
+            rec.exception('link', e2, what=f'reading the streams after a refused link_with ({tag}) raised {type(e2).__name__}: {str(e2)[:150]}')
+        return
+    except Exception as e:
+        rec.exception('link', e, what=f'link_with({tag}) raised {type(e).__name__}: {str(e)[:150]}'); return
+    if f[0] and (foreign or diffph):
+        # one container cannot serve two chemical orders / phase sets: an accepted link must still show the same flows on both sides, before and after a write
+        eq = (lambda u, w: u == w) if (am and bm) else (lambda u, w: bycas(u) == bycas(w))
+        try:
+            pa, pb = pub_ledger(a), pub_ledger(b)
+            ok = eq(pa, pb); detail = f'{pa} vs {pb}'
+            if ok:
+                ida = a.chemicals.IDs; v = 4321.5 + sum(pa.values())
+                if am: a.imol[a.phases[0], ida[0]] = v
+                else: a.imol[ida[0]] = v
+                pa, pb = pub_ledger(a), pub_ledger(b)
+                ok = eq(pa, pb) and mass_view_ok(a) and mass_view_ok(b); detail = f'after a write on one of them {pa} vs {pb}'
+        except Exception as e:
+            ok = False; detail = f'reading the linked streams raised {type(e).__name__}: {str(e)[:120]}'
+        rec.check(ok, 'link', f'values/{tag}', f'link_with(flow=True) was accepted between streams with {"other chemicals" if foreign else "other phases"}, but the two do not show the same flows: {detail}')
+        if len(sa['flows']) >= 2: rec.mark_nontrivial(case_hash(case))
+        return
+    # accepted: the selected parts are equal and shared, the rest is as before
+    try:
+        pa, pb = pub_ledger(a), pub_ledger(b)
+        if f[0]:
+            ok = (pa == pb) if (am and bm) else (bycas(pa) == bycas(pb))
+            if not rec.check(ok, 'link', f'values/{tag}', f'link_with(flow=True) accepted, but the two streams show different flows: {pa} vs {pb}'): return
+        else:
+            rec.check(bycas(pb) == bycas(sb['flows']), 'link', f'unselected-flow-changed/{tag}', f'link_with(flow=False) changed the flows of the linking stream: {sb["flows"]} -> {pb}')
+        if f[2]: rec.check(a.T == b.T and a.P == b.P, 'link', f'values-TP/{tag}', 'T,P differ right after link_with(TP=True)')
+        else: rec.check(b.T == sb['T'] and b.P == sb['P'], 'link', f'unselected-TP-changed/{tag}', 'link_with(TP=False) changed T,P of the linking stream')
+        if f[1] and not am and not bm: rec.check(a.phase == b.phase, 'link', f'values-phase/{tag}', 'phases differ right after link_with(phase=True)')
+        rec.check(same_snap(snap(a), sa), 'link', f'other-changed/{tag}', f'link_with changed the stream linked to: {sa} -> {snap(a)}')
+        # behaviour: write on a, read b
+        ida = a.chemicals.IDs
+        pb0 = pub_ledger(b)
+        v = 4321.5 + sum(pa.values())
+        if am: a.imol[a.phases[0], ida[0]] = v
+        else: a.imol[ida[0]] = v
+        pa1, pb1 = pub_ledger(a), pub_ledger(b)
+        if f[0]: rec.check((pa1 == pb1) if (am and bm) else (bycas(pa1) == bycas(pb1)), 'link', f'flow-not-shared/{tag}', f'flows linked, but after a write the streams differ: {pa1} vs {pb1}')
+        else: rec.check(pb1 == pb0, 'link', f'flow-shared/{tag}', 'flows not linked, but a write on one stream changed the other')
+        T1 = max(a.T, b.T) + 2.5; a.T = T1
+        rec.check((b.T == T1) == bool(f[2]), 'link', f'T-{"not-" if f[2] else ""}shared/{tag}', f'T write visible on the other side = {b.T == T1}, TP linked = {f[2]}')
+        for x in (a, b): rec.check(mass_view_ok(x), 'link', f'mass-view/{tag}', 'mass view != mol*MW on a linked stream')
+    except Exception as e:
+        rec.exception('link', e, what=f'reading / probing the streams after an accepted link_with ({tag}) raised {type(e).__name__}: {str(e)[:150]}'); return
+    if len(sa['flows']) >= 2: rec.mark_nontrivial(case_hash(case))
+
+
+# ---------------------------------------------------------------------------------------------------------------------
+def _user_chemical():
+    return tmo.Chemical('Yeast', search_db=False, phase='s', formula='CH1.61O0.56N0.16', Hf=-130412.73, rho=1540., Cp=1.2, default=True)
+
+
+def _rt(x):
+    return pickle.loads(pickle.dumps(x))
+
+
+def _ev(h, ph, args):
+    try: return h(ph, *args)
+    except Exception as e: return 'raises ' + type(e).__name__
+
+
+def _rxn_state(r):
+    st = r._stoichiometry
+    sto = [x.to_array().tolist() for x in st] if isinstance(st, list) else np.asarray(st.to_array() if hasattr(st, 'to_array') else st).tolist()
+    return (type(r).__name__, sto, np.asarray(r.X).tolist(), r._basis, repr(r._reactant_index), tuple(r.chemicals.IDs), getattr(r, 'phases', None))
+
+
+def run_pickle2(case, rec):
+    what = case['what']
+    th = thermo_of(PKGS[0])
+    rec.hit('pickle2:' + what)
+    try:
+        if what in ('empty', 'M1', 'labels', 'units', 'proxy', 'view', 'linked-pair'):
+            d = case.get('s')
+            if what == 'units':
+                fl = {i: v for i, v in zip(PKGS[0], case['flows']) if v}
+                if not fl: fl = {'Water': 1.0}
+                try:
+                    if case['multi']: s = tmo.MultiStream(None, l=list(fl.items()), g=[('Ethanol', 2.5)], units=case['units'], total_flow=case['total'], T=case['T'], thermo=th, price=case['price'])
+                    else: s = tmo.Stream(None, units=case['units'], total_flow=case['total'], T=case['T'], thermo=th, price=case['price'], **fl)
+                except Exception:
+                    rec.refuse('pickle2: stream with units/total_flow could not be built'); return
+                objs = [s]
+            elif what == 'proxy':
+                a = build_stream(d, PKGS); a.price = case['price']
+                objs = [a.proxy() if case['full'] else a.flow_proxy()]
+            elif what == 'view':
+                a = build_stream(d, PKGS); objs = [a[a.phases[case['ph'] % len(a.phases)]]]
+            elif what == 'linked-pair':
+                a = build_stream(d, PKGS); b = build_stream(case['s2'], PKGS); f = case['flags']; b.link_with(a, flow=f[0], phase=f[1], TP=f[2])
+                objs = [a, b]
+            else:
+                s = build_stream(d, PKGS); s.price = case['price']; objs = [s]
+            rs = _rt(tuple(objs))
+            tag = what + '/' + ('multi' if isinstance(objs[0], tmo.MultiStream) else 'single')
+            for o, r in zip(objs, rs):
+                so, sr = snap(o), snap(r)
+                rec.check(same_snap(so, sr), 'pickle2', f'state/{tag}', f'pickled stream ({what}) differs: {so} -> {sr}')
+                if what != 'view': rec.check(r.price == o.price, 'pickle2', f'price/{tag}', f'pickle lost the price: {o.price} -> {r.price}')
+                rec.check(r.chemicals.IDs == o.chemicals.IDs, 'pickle2', f'chemicals/{tag}', 'pickle changed the chemicals')
+                rec.check(mass_view_ok(r), 'pickle2', f'mass-view/{tag}', 'mass view of an unpickled stream is not mol*MW')
+                if len(so['flows']) >= 2: rec.mark_nontrivial(case_hash(case))
+        elif what == 'indexer':
+            s = build_stream(case['s'], PKGS)
+            multi = isinstance(s, tmo.MultiStream)
+            for name in ('imol', 'imass'):
+                ix = getattr(s, name); r = _rt(ix)
+                tag = name + '/' + ('multi' if multi else 'single')
+                same = type(r) is type(ix) and np.array_equal(np.asarray(r.data.to_array(), float), np.asarray(ix.data.to_array(), float)) and r.chemicals.IDs == ix.chemicals.IDs and \
+                       ((tuple(r.phases) == tuple(ix.phases)) if multi else (r.phase == ix.phase))
+                rec.check(same, 'pickle2', f'indexer/{tag}', f'pickled {name} indexer differs: {ix.data.to_array().tolist()} -> {r.data.to_array().tolist()}')
+                key = (s.phases[0], PKGS[0][1]) if multi else PKGS[0][1]
+                rec.check(float(r[key]) == float(ix[key]), 'pickle2', f'indexer-lookup/{tag}', 'lookup by ID on a pickled indexer differs')
+            rec.mark_nontrivial(case_hash(case))
+        elif what == 'isplit':
+            sp = th.chemicals.isplit({i: v for i, v in zip(PKGS[0], case['split'])})
+            r = _rt(sp)
+            rec.check(type(r) is type(sp) and np.array_equal(r.data.to_array(), sp.data.to_array()) and r.chemicals.IDs == sp.chemicals.IDs and all(r[i] == sp[i] for i in PKGS[0]), 'pickle2', 'indexer/isplit',
+                      f'pickled split indexer differs: {sp.data.to_array().tolist()} -> {r.data.to_array().tolist()}')
+            ka = th.chemicals.kwarray({'Water': case['split'][0], 'CO2': 0.5}); rka = _rt(ka)
+            rec.check(np.array_equal(np.asarray(ka), np.asarray(rka)), 'pickle2', 'indexer/kwarray', 'pickled kwarray differs')
+            rec.mark_nontrivial(case_hash(case))
+        elif what in ('SeriesReaction', 'ReactionSystem', 'ReactionItem', 'X-edited'):
+            ch = th.chemicals
+            r1 = tmo.Reaction('Ethanol + Water -> Methanol + CO2', reactant='Ethanol', X=case['X'], chemicals=ch, basis=case['basis'])
+            r2 = tmo.Reaction({'Methanol': -1, 'Octane': 0.5}, reactant='Methanol', X=0.3, chemicals=ch, basis=case['basis'])
+            if what == 'SeriesReaction': obj = tmo.SeriesReaction([r1, r2])
+            elif what == 'ReactionItem': obj = (tmo.ParallelReaction([r1, r2]) if case['parallel'] else tmo.SeriesReaction([r1, r2]))[case['i']]
+            elif what == 'X-edited':
+                if case['parallel']: obj = tmo.ParallelReaction([r1, r2]); obj.X[case['i']] = case['X2']
+                else: obj = r1; obj.X = case['X2']
+            else: obj = tmo.ReactionSystem(r1, tmo.ParallelReaction([r1, r2]), tmo.SeriesReaction([r2, r1]))
+            r = _rt(obj)
+            if what == 'ReactionSystem':
+                rec.check(type(r) is type(obj) and [_rxn_state(i) for i in r._reactions] == [_rxn_state(i) for i in obj._reactions], 'pickle2', 'state/ReactionSystem', 'pickled ReactionSystem differs')
+            else:
+                rec.check(_rxn_state(r) == _rxn_state(obj), 'pickle2', f'state/{what}', f'pickled {what} differs: {_rxn_state(obj)} -> {_rxn_state(r)}')
+            # same effect on a stream
+            s0 = tmo.Stream(None, Water=50., Ethanol=5., Methanol=2., thermo=th); s1 = s0.copy()
+            obj(s0); r(s1)
+            rec.check(phase_ledger(s0) == phase_ledger(s1), 'pickle2', f'effect/{what}', f'pickled {what} acts differently on a stream: {phase_ledger(s0)} vs {phase_ledger(s1)}')
+            rec.mark_nontrivial(case_hash(case))
+        elif what in ('Chemical-blank', 'Chemical-user', 'Chemical-Hf'):
+            if what == 'Chemical-blank':
+                c = tmo.Chemical.blank('MyChem', CAS='999-99-9', phase_ref='l', MW=case['MW'], Hf=case['Hf'], formula='C5H8O2')
+                get = lambda x: (x.ID, x.CAS, x.MW, x.Hf, x.formula, x.phase_ref, x.atoms, tuple(sorted(x.aliases)))
+            elif what == 'Chemical-user':
+                c = _user_chemical()
+                get = lambda x: (x.ID, x.CAS, x.MW, x.Hf, x.formula, x.phase_ref, x.locked_state, x.HHV, x.LHV, x.V(300., 101325.), x.Cn(310.), x.H(320., 101325.), x.S(320., 101325.), type(x.V).__name__, type(x.Cn).__name__)
+            else:
+                c = tmo.Chemical(case['chem'], cache=False); c.Hf = case['Hf']
+                get = lambda x: (x.ID, x.CAS, x.MW, x.Hf, x.formula, x.Tb, x.H('l', 330., 101325.), x.H('g', 400., 101325.), x.S('l', 330., 101325.), x.Psat(330.), x.HHV, x.LHV)
+            r = _rt(c)
+            rec.check(get(r) == get(c), 'pickle2', f'state/{what}', f'pickled {what} differs: {get(c)} -> {get(r)}')
+            rec.mark_nontrivial(case_hash(case))
+        elif what in ('Chemicals-alias', 'Chemicals-group', 'Thermo-custom', 'IdealThermo'):
+            chs = tmo.Chemicals(['Water', 'Ethanol', 'Octane', _user_chemical()], cache=True)
+            chs.compile()
+            if what == 'Chemicals-alias':
+                chs.set_alias('Water', 'H2O_c13'); chs.set_alias('Yeast', 'Cells')
+                r = _rt(chs)
+                rec.check(r.IDs == chs.IDs and np.array_equal(r.MW, chs.MW) and np.array_equal(r.Hf, chs.Hf), 'pickle2', 'state/Chemicals', 'pickled Chemicals differs')
+                try:
+                    ok = r.index('H2O_c13') == chs.index('H2O_c13') and r.index('Cells') == chs.index('Cells') and r.H2O_c13.ID == 'Water'
+                except Exception as e:
+                    rec.exception('pickle2', e, what=f'alias lookup on pickled Chemicals raised {type(e).__name__}: {str(e)[:120]}'); return
+                rec.check(ok, 'pickle2', 'alias/Chemicals', 'aliases set on Chemicals are lost or changed by pickling')
+            elif what == 'Chemicals-group':
+                chs.define_group('solvents_c13', ['Water', 'Ethanol'], composition=[0.3, 0.7], wt=case['wt'])
+                obj = tmo.Thermo(chs) if case['via_thermo'] else chs
+                r = _rt(obj); rc = r.chemicals if case['via_thermo'] else r
+                tag = 'Thermo' if case['via_thermo'] else 'Chemicals'
+                rec.check(rc.chemical_groups == chs.chemical_groups, 'pickle2', f'groups/{tag}', f'chemical groups defined on the chemicals are lost by pickling: {sorted(chs.chemical_groups)} -> {sorted(rc.chemical_groups)}')
+                if rc.chemical_groups == chs.chemical_groups:
+                    s0 = tmo.Stream(None, thermo=tmo.Thermo(chs)); s1 = tmo.Stream(None, thermo=(r if case['via_thermo'] else tmo.Thermo(rc)))
+                    s0.imass['solvents_c13'] = 10.; s1.imass['solvents_c13'] = 10.
+                    rec.check(phase_ledger(s0) == phase_ledger(s1), 'pickle2', f'group-write/{tag}', 'writing by group on unpickled chemicals gives other flows')
+            else:
+                base = tmo.Thermo(chs, Gamma=tmo.equilibrium.IdealActivityCoefficients) if what == 'Thermo-custom' else tmo.Thermo(chs)
+                obj = base if what == 'Thermo-custom' else base.ideal()
+                r = _rt(obj)
+                rec.check(type(r) is type(obj) and r.Gamma is obj.Gamma and r.Phi is obj.Phi and r.PCF is obj.PCF and r.chemicals.IDs == obj.chemicals.IDs and type(r.mixture) is type(obj.mixture)
+                          and r.mixture.include_excess_energies == obj.mixture.include_excess_energies, 'pickle2', f'state/{what}', f'pickled {what} differs')
+                s0 = tmo.Stream(None, Water=1, Ethanol=2, Yeast=0.5, T=330, thermo=base); s1 = tmo.Stream(None, Water=1, Ethanol=2, Yeast=0.5, T=330, thermo=_rt(base))
+                rec.check(s0.H == s1.H and s0.rho == s1.rho and s0.Cn == s1.Cn, 'pickle2', f'properties/{what}', 'stream on a pickled package has other H / rho / Cn')
+            rec.mark_nontrivial(case_hash(case))
+        elif what == 'handles':
+            w = tmo.Chemical(case['chem'], cache=False)
+            chs = tmo.Chemicals(['Water', 'Ethanol', _user_chemical()], cache=True); thx = tmo.Thermo(chs)
+            seen = set()
+            for name in ('V', 'Cn', 'H', 'S', 'mu', 'kappa'):
+                h = getattr(w, name); r = _rt(h)
+                seen.add(type(h).__name__)
+                args = (320.,) if name == 'Cn' else (320., 101325.)
+                rec.check(type(r) is type(h) and r.var == h.var and all(_ev(r, ph, args) == _ev(h, ph, args) for ph in 'slg'), 'pickle2', f'handle/{type(h).__name__}', f'pickled {type(h).__name__} ({name}) differs')
+            for name in ('V', 'Cn', 'mu', 'kappa', 'H', 'S'):
+                model = getattr(thx.mixture, name, None)
+                for h in getattr(model, 'models', ()):
+                    if type(h).__name__.startswith('Mock'):
+                        r = _rt(h); seen.add(type(h).__name__)
+                        args = (320.,) if type(h).__name__ == 'MockPhaseTHandle' else (320., 101325.)
+                        rec.check(type(r) is type(h) and r.var == h.var and _ev(r, 's', args) == _ev(h, 's', args), 'pickle2', f'handle/{type(h).__name__}', f'pickled {type(h).__name__} ({name}) differs')
+            for k in sorted(seen): rec.hit('pickle2:handle/' + k)
+            rec.mark_nontrivial(case_hash(case))
+    except Exception as e:
+        rec.exception('pickle2', e, what=f'pickle round trip ({what}) raised {type(e).__name__}: {str(e)[:150]}'); return
+    rec.hit('pickle2')
+
+
+# ---------------------------------------------------------------------------------------------------------------------
+def run_copy_like2(case, rec):
+    form = case['form']
+    rec.hit('copy_like2:' + form)
+    if form == 'self':
+        t = build_stream(case['tt'], PKGS)
+        tag = 'self/' + ('multi' if isinstance(t, tmo.MultiStream) else 'single')
+        st = snap(t)
+        try:
+            t.copy_like(t)
+        except Exception as e:
+            rec.exception('copy_like2', e, what=f't.copy_like(t) raised {type(e).__name__}: {str(e)[:150]}'); return
+        rec.check(same_snap(snap(t), st), 'copy_like2', f'state/{tag}', f't.copy_like(t) changed t: {st} -> {snap(t)}')
+        if len(st['flows']) >= 2: rec.mark_nontrivial(case_hash(case))
+    elif form == 'linked':
+        a = build_stream(case['a'], PKGS); b = build_stream(case['b'], PKGS)
+        multi = isinstance(a, tmo.MultiStream)
+        how = case['how']
+        tag = 'linked/' + ('multi' if multi else 'single') + '/' + how + '/' + ('copy-to-linked' if case['dir'] == 'ba' else 'copy-to-original')
+        try:
+            if how == 'proxy': b = a.proxy()
+            elif how == 'flow_proxy': b = a.flow_proxy(); mutate(b, {'m': 'T', 'v': case['T2']}); mutate(b, {'m': 'phase', 'v': case['ph2']})
+            else:
+                f = case['flags']; b.link_with(a, flow=f[0], phase=f[1], TP=f[2])
+            s, t = (a, b) if case['dir'] == 'ba' else (b, a)
+            ss = snap(s)
+            t.copy_like(s)
+        except Exception as e:
+            rec.exception('copy_like2', e, what=f'copy_like between linked streams ({tag}) raised {type(e).__name__}: {str(e)[:150]}'); return
+        ts = snap(t)
+        rec.check(ts['flows'] == ss['flows'] and ts['T'] == ss['T'] and ts['P'] == ss['P'] and ts['phases'] == ss['phases'], 'copy_like2', f'state/{tag}', f'copy_like between linked streams: target {ts}, source was {ss}')
+        rec.check(same_snap(snap(s), ss), 'copy_like2', f'source-changed/{tag}', f'copy_like between linked streams changed the source: {ss} -> {snap(s)}')
+        for x in (s, t): rec.check(mass_view_ok(x), 'copy_like2', f'mass-view/{tag}', 'mass view != mol*MW after copy_like between linked streams')
+        if len(ss['flows']) >= 2: rec.mark_nontrivial(case_hash(case))
+    elif form == 'view-target':
+        m = build_stream(case['m'], PKGS); s = build_stream(case['src'], PKGS)
+        ph = m.phases[case['ph'] % len(m.phases)]
+        v = m[ph]
+        sm = isinstance(s, tmo.MultiStream)
+        foreign = s.chemicals is not m.chemicals
+        tag = 'view-target/' + ('one-phase-multi' if sm else 'single') + '-source/' + ('foreign' if foreign else 'same') + '-package'
+        ss = snap(s)
+        try:
+            v.copy_like(s)
+        except AttributeError as e:
+            if 'phase is locked' in str(e): rec.refuse('copy_like onto a phase view from a source in another phase: phase is locked'); return
+            rec.exception('copy_like2', e, what=f'copy_like onto a phase view ({tag}) raised AttributeError: {str(e)[:150]}'); return
+        except Exception as e:
+            rec.exception('copy_like2', e, what=f'copy_like onto a phase view ({tag}) raised {type(e).__name__}: {str(e)[:150]}'); return
+        vs = snap(v)
+        rec.check(bycas(vs['flows']) == bycas(ss['flows']) and v.phase == ph, 'copy_like2', f'flows/{tag}', f'copy_like onto a phase view: view {vs["flows"]}, source {ss["flows"]}')
+        rec.check(v.T == ss['T'] and v.P == ss['P'] and m.T == ss['T'] and m.P == ss['P'], 'copy_like2', f'TP/{tag}', 'copy_like onto a phase view: T,P of the view / its parent differ from the source')
+        row = {k: x for k, x in phase_ledger(m).items() if k[0] == ph}
+        rec.check(bycas(row) == bycas(ss['flows']), 'copy_like2', f'parent-row/{tag}', f'copy_like onto a phase view: the row of the parent holds {row}, source {ss["flows"]}')
+        rec.check(same_snap(snap(s), ss), 'copy_like2', f'source-changed/{tag}', 'copy_like onto a phase view changed its source')
+        v.imol[v.chemicals.IDs[0]] = 41.5
+        rec.check(same_snap(snap(s), ss), 'copy_like2', f'not-independent/{tag}', 'writing the view after copy_like changed the source')
+        if len(ss['flows']) >= 2: rec.mark_nontrivial(case_hash(case))
+    elif form in ('view-source', 'own-view'):
+        m = build_stream(case['m'], PKGS)
+        ph = m.phases[case['ph'] % len(m.phases)]
+        v = m[ph]
+        t = m if form == 'own-view' else build_stream(case['tgt'], PKGS)
+        tm_ = isinstance(t, tmo.MultiStream)
+        foreign = t.chemicals is not m.chemicals
+        tag = form + '/' + ('multi' if tm_ else 'single') + '-target/' + ('foreign' if foreign else 'same') + '-package'
+        sv = snap(v); sm_ = snap(m)
+        try:
+            t.copy_like(v)
+        except Exception as e:
+            rec.exception('copy_like2', e, what=f'copy_like from a phase view ({tag}) raised {type(e).__name__}: {str(e)[:150]}'); return
+        ts = snap(t)
+        exp = expected_after_copy_like(sv, t)
+        rec.check(ts['flows'] == exp, 'copy_like2', f'flows/{tag}', f'copy_like from a phase view: target flows {ts["flows"]} expected {exp}')
+        rec.check(ts['T'] == sv['T'] and ts['P'] == sv['P'], 'copy_like2', f'TP/{tag}', 'copy_like from a phase view: T,P differ')
+        if form == 'view-source':
+            rec.check(same_snap(snap(m), sm_) and same_snap(snap(v), sv), 'copy_like2', f'source-changed/{tag}', f'copy_like from a phase view changed the view or its parent: {sm_} -> {snap(m)}')
+            t.scale(2.0); t.T = t.T + 1.0
+            rec.check(same_snap(snap(m), sm_), 'copy_like2', f'not-independent/{tag}', 'mutating the target after copy_like from a phase view changed the parent of the view')
+        e = stream_invariant(t); rec.check(e is None, 'invariant', 'copy_like2', f'sparse invariant: {e}')
+        if len(sv['flows']) >= 2: rec.mark_nontrivial(case_hash(case))
+    rec.hit('copy_like2')
+
+
+# ---------------------------------------------------------------------------------------------------------------------
+def gen_mut2(rng):
+    m = rng.choice(['T', 'P', 'flow', 'flow', 'imass', 'scale', 'empty', 'phase', 'mixself', 'copy_like3', 'mix3', 'molset'])
+    mu = {'m': m, 'i': rng.randrange(5), 'ph': rng.randrange(4)}
+    if m == 'T': mu['v'] = round(rng.uniform(285, 370), 2)
+    elif m == 'P': mu['v'] = rng.choice([5e4, 101325., 3e5])
+    elif m in ('flow', 'imass'): mu['v'] = gflow(rng)
+    elif m == 'scale': mu['v'] = rng.choice([0.5, 2.0, 3.0])
+    elif m == 'phase': mu['v'] = rng.choice(PH)
+    elif m == 'molset': mu['vals'] = [gflow(rng) for _ in range(5)]
+    return mu
+
+
+def gen_linkseq(rng):
+    kind = rng.choice('SM')
+    phs = ''.join(rng.sample(list(PH), rng.randrange(2, 4))) if kind == 'M' else None
+    streams = [gen_stream(rng, 0, kind, phases=phs) for _ in range(3)]
+    donor = gen_stream(rng, 0, kind, phases=phs)
+    ops = []
+    for _ in range(rng.randrange(4, 11)):
+        o = rng.choice(['link', 'link', 'link', 'proxy', 'flow_proxy', 'unlink', 'unlink', 'copy', 'mut', 'mut', 'mut', 'mut'])
+        x = rng.randrange(3); y = rng.choice([i for i in range(3) if i != x])
+        if o == 'link': ops.append({'op': 'link', 'x': x, 'y': y, 'flags': [rng.random() < 0.6, rng.random() < 0.6, rng.random() < 0.6]})
+        elif o in ('proxy', 'flow_proxy', 'copy'): ops.append({'op': o, 'x': x, 'y': y})
+        elif o == 'unlink': ops.append({'op': 'unlink', 'x': x})
+        else: ops.append({'op': 'mut', 'x': x, 'mu': gen_mut2(rng)})
+    return {'t': 'linkseq', 'kind': kind, 'streams': streams, 'donor': donor, 'ops': ops}
+
+
+def gen_copyflow_form(rng, src_ids, dst_multi, dst_phases):
+    k = rng.choice(['all', 'str', 'seq', 'ex-str', 'ex-seq', 'ex-all', 'ex-absent'])
+    form = {}
+    pool = list(PKGS[0])
+    if k == 'str': form['IDs'] = rng.choice(src_ids)
+    elif k == 'seq': form['IDs'] = rng.sample(list(src_ids), rng.randrange(1, min(3, len(src_ids)) + 1))
+    elif k == 'ex-str': form['IDs'] = rng.choice(src_ids); form['exclude'] = True
+    elif k == 'ex-seq': form['IDs'] = rng.sample(list(src_ids), rng.randrange(1, min(3, len(src_ids)) + 1)); form['exclude'] = True
+    elif k == 'ex-all': form['exclude'] = True
+    elif k == 'ex-absent':
+        absent = [i for i in pool if i not in src_ids]
+        form['IDs'] = rng.choice(absent) if (absent and rng.random() < 0.5) else rng.choice(pool)
+        form['exclude'] = True
+    if dst_multi and rng.random() < 0.4: form['phase'] = rng.choice(dst_phases)
+    return form
+
+
+def gen_case2(rng):
+    t = rng.choices(['linkseq', 'copy2', 'copyflow', 'linkkinds', 'pickle2', 'copy_like2'], [6, 2, 4, 2, 2, 3])[0]
+    if t == 'linkseq': return gen_linkseq(rng)
+    if t == 'copy2':
+        form = rng.choice(['thermo', 'thermo', 'copy.copy', 'view', 'ID'])
+        if form == 'thermo':
+            apkg = rng.choice([0, 1, 2]); a = gen_stream(rng, apkg)
+            return {'t': 'copy2', 'form': form, 'a': a, 'pkg': rng.choice([0, 1, 2])}
+        if form == 'view': return {'t': 'copy2', 'form': form, 'a': gen_stream(rng, rng.choice([0, 1]), 'M'), 'ph': rng.randrange(3)}
+        if form == 'ID': return {'t': 'copy2', 'form': form, 'a': gen_stream(rng, 0), 'give_id': rng.random() < 0.5}
+        return {'t': 'copy2', 'form': form, 'a': gen_stream(rng, rng.choice([0, 1]))}
+    if t == 'copyflow':
+        what = rng.choice(['copy_flow'] * 6 + ['copy_thermal_condition', 'copy_phase'])
+        spkg = rng.choice([0, 0, 1, 2]); dpkg = rng.choice([0, 0, 1])
+        sk = rng.choice(['S', 'M', 'M1'])
+        src = gen_stream(rng, spkg, 'M', phases=rng.choice(PH)) if sk == 'M1' else gen_stream(rng, spkg, sk)
+        if what == 'copy_phase': return {'t': 'copyflow', 'what': what, 'src': src, 'dst': gen_stream(rng, dpkg, 'S')}
+        if what == 'copy_thermal_condition': return {'t': 'copyflow', 'what': what, 'src': src, 'dst': gen_stream(rng, dpkg)}
+        dk = rng.choice('SM')
+        if dk == 'M':
+            dpkg = spkg if rng.random() < 0.85 else dpkg
+            sph = src['phases'] if src['kind'] == 'M' else src['phase']
+            r = rng.random()
+            if src['kind'] == 'M' and len(sph) >= 2 and r < 0.5: dph = sph
+            elif r < 0.8: dph = ''.join(sorted(set(sph + rng.choice(PH)))) if len(sph) < 3 else sph
+            else: dph = None
+            if dph is not None and len(dph) < 2: dph = dph + rng.choice([p for p in PH if p not in dph])
+            dst = gen_stream(rng, dpkg, 'M', phases=dph)
+        else:
+            dst = gen_stream(rng, dpkg, 'S')
+        form = gen_copyflow_form(rng, PKGS[spkg], dk == 'M', dst.get('phases'))
+        return {'t': 'copyflow', 'what': what, 'src': src, 'dst': dst, 'form': form}
+    if t == 'linkkinds':
+        mode = rng.choice(['kind', 'phases', 'pkg', 'pkg'])
+        flags = [rng.random() < 0.7, rng.random() < 0.6, rng.random() < 0.6]
+        if mode == 'kind':
+            ka = rng.choice('SM'); kb = 'M' if ka == 'S' else 'S'
+            return {'t': 'linkkinds', 'a': gen_stream(rng, rng.choice([0, 1]), ka), 'b': gen_stream(rng, rng.choice([0, 1]), kb), 'flags': flags}
+        if mode == 'phases':
+            pa = ''.join(rng.sample(list(PH), rng.randrange(2, 4)))
+            while True:
+                pb = ''.join(rng.sample(list(PH), rng.randrange(2, 4)))
+                if set(pb) != set(pa): break
+            return {'t': 'linkkinds', 'a': gen_stream(rng, 0, 'M', phases=pa), 'b': gen_stream(rng, 0, 'M', phases=pb), 'flags': flags}
+        kind = rng.choice('SM'); phs = ''.join(rng.sample(list(PH), rng.randrange(2, 4))) if kind == 'M' else None
+        pa, pb = rng.choice([(0, 1), (1, 0), (0, 2), (2, 0)])
+        return {'t': 'linkkinds', 'a': gen_stream(rng, pa, kind, phases=phs), 'b': gen_stream(rng, pb, kind, phases=phs), 'flags': flags}
+    if t == 'pickle2':
+        what = rng.choice(['empty', 'M1', 'labels', 'units', 'proxy', 'view', 'linked-pair', 'indexer', 'isplit', 'SeriesReaction', 'ReactionSystem', 'ReactionItem', 'X-edited',
+                           'Chemical-blank', 'Chemical-user', 'Chemical-Hf', 'Chemicals-alias', 'Chemicals-group', 'Thermo-custom', 'IdealThermo', 'handles'])
+        c = {'t': 'pickle2', 'what': what, 'price': round(rng.uniform(0.01, 5), 3)}
+        if what == 'empty': c['s'] = gen_stream(rng, 0, empty=True)
+        elif what == 'M1': c['s'] = gen_stream(rng, rng.choice([0, 1]), 'M', phases=rng.choice(PH))
+        elif what == 'labels':
+            k = rng.choice('SM')
+            c['s'] = gen_stream(rng, 0, 'S', phases=rng.choice('SLs')) if k == 'S' else gen_stream(rng, 0, 'M', phases=rng.choice(['SL', 'sS', 'lL', 'gLS', 'sSL']))
+        elif what == 'units':
+            c.update(units=rng.choice(['kg/hr', 'kmol/hr', 'lb/hr', 'm3/hr']), total=round(10 ** rng.uniform(0, 3), 3), T=round(rng.uniform(285, 340), 2), multi=rng.random() < 0.4, flows=[gflow(rng) for _ in range(5)])
+        elif what == 'proxy': c.update(s=gen_stream(rng, 0), full=rng.random() < 0.5)
+        elif what == 'view': c.update(s=gen_stream(rng, 0, 'M'), ph=rng.randrange(3))
+        elif what == 'linked-pair':
+            k = rng.choice('SM'); phs = ''.join(rng.sample(list(PH), rng.randrange(2, 4))) if k == 'M' else None
+            c.update(s=gen_stream(rng, 0, k, phases=phs), s2=gen_stream(rng, 0, k, phases=phs), flags=[rng.random() < 0.6, rng.random() < 0.6, rng.random() < 0.6])
+        elif what == 'indexer': c['s'] = gen_stream(rng, 0)
+        elif what == 'isplit': c['split'] = [round(rng.random(), 3) for _ in range(5)]
+        elif what in ('SeriesReaction', 'ReactionSystem', 'ReactionItem', 'X-edited'):
+            c.update(X=round(rng.random(), 3), X2=round(rng.random(), 3), basis=rng.choice(['mol', 'wt']), parallel=rng.random() < 0.5, i=rng.randrange(2))
+        elif what == 'Chemical-blank': c.update(MW=round(rng.uniform(20, 300), 2), Hf=-round(rng.uniform(1e4, 5e5), 1))
+        elif what == 'Chemical-Hf': c.update(chem=rng.choice(['Water', 'Ethanol', 'Octane']), Hf=-round(rng.uniform(1e4, 5e5), 1))
+        elif what == 'Chemicals-group': c.update(wt=rng.random() < 0.5, via_thermo=rng.random() < 0.5)
+        elif what == 'handles': c['chem'] = rng.choice(['Water', 'Ethanol', 'Octane'])
+        return c
+    # copy_like2
+    form = rng.choice(['self', 'linked', 'linked', 'view-target', 'view-target', 'view-source', 'view-source', 'own-view'])
+    if form == 'self':
+        k = rng.choice(['S', 'M', 'M1'])
+        tt = gen_stream(rng, rng.choice([0, 1]), 'M', phases=rng.choice(PH)) if k == 'M1' else gen_stream(rng, rng.choice([0, 1]), k)
+        return {'t': 'copy_like2', 'form': form, 'tt': tt}
+    if form == 'linked':
+        k = rng.choice('SM'); phs = ''.join(rng.sample(list(PH), rng.randrange(2, 4))) if k == 'M' else None
+        return {'t': 'copy_like2', 'form': form, 'a': gen_stream(rng, 0, k, phases=phs), 'b': gen_stream(rng, 0, k, phases=phs), 'how': rng.choice(['proxy', 'flow_proxy', 'link', 'link']),
+                'flags': [rng.random() < 0.6, rng.random() < 0.6, rng.random() < 0.6], 'dir': rng.choice(['ab', 'ba']), 'T2': round(rng.uniform(285, 370), 2), 'ph2': rng.choice(PH)}
+    m = gen_stream(rng, 0, 'M'); phi = rng.randrange(3)
+    if form == 'view-target':
+        ph = ''.join(sorted(m['phases']))[phi % len(m['phases'])]
+        sph = ph if rng.random() < 0.75 else rng.choice(PH)
+        sk = rng.choice(['S', 'S', 'M1']); spkg = rng.choice([0, 0, 1, 2])
+        src = gen_stream(rng, spkg, 'M' if sk == 'M1' else 'S', phases=sph)
+        return {'t': 'copy_like2', 'form': form, 'm': m, 'ph': phi, 'src': src}
+    if form == 'own-view': return {'t': 'copy_like2', 'form': form, 'm': m, 'ph': phi}
+    tgt = gen_stream(rng, rng.choice([0, 0, 1]), rng.choice('SM'), empty=rng.random() < 0.5)
+    return {'t': 'copy_like2', 'form': form, 'm': m, 'ph': phi, 'tgt': tgt}
+
+
+RUNNERS = {'copy': run_copy, 'copy_like': run_copy_like, 'link': run_link, 'pickle': run_pickle,
+           'linkseq': run_linkseq, 'copy2': run_copy2, 'copyflow': run_copyflow, 'linkkinds': run_linkkinds, 'pickle2': run_pickle2, 'copy_like2': run_copy_like2}
 
 
 def run_case(case, rec):
@@ -344,3 +1237,14 @@ def run(rec, rng, tier, shard, nshards):
         case = gen_case(rng)
         run_case(case, rec)
         if i % 301 == 0: rec.sample(case)
+    # second stream of cases: drawn after the first so that the first stays identical
+    n2 = 1800 if tier == 'quick' else 18000
+    # every unpickled property package stays in the library's class-level caches (~0.6 MB each): the number of pickle2 cases per shard is bounded
+    # (the case is still drawn, so the stream of the other cases does not depend on the bound)
+    pk = 0; pk_max = 700
+    for i in range(n2):
+        case = gen_case2(rng)
+        if case['t'] == 'pickle2':
+            pk += 1
+            if pk > pk_max: continue
+        run_case(case, rec)
